@@ -145,13 +145,12 @@ class Matcher:
                 if self.over:
                     yield pos + 1, caps       # possible when the token is this single character
                     return
-                if self.exists_mode:
-                    # follow the branch "the token is exactly this one character": a complete match found under that
-                    # assumption proves nothing (it is reported as undecided), but a branch that dies anyway is settled
-                    c2 = dict(caps)
-                    c2[-1] = (pos, pos + 1)
-                    yield pos + 1, c2
-                    return
+                # follow the branch "the token is exactly this one character": a complete match found under that
+                # assumption proves nothing (it is reported as undecided), but a branch that dies anyway is settled
+                c2 = dict(caps)
+                c2[-1] = (pos, pos + 1)
+                yield pos + 1, c2
+                return
                 self._undecided(f"one-character element {node!r} meets token {h!r} of unknown length")
                 return
             if r:
@@ -255,12 +254,15 @@ class Matcher:
             stops = [pos]
             n_min = 0          # least number of characters consumed so far (a hole counts 1)
             p = pos
+            taint_from: Optional[int] = None      # stops from this index on swallowed a token only partly inside the class
             while p < len(self.s):
                 x = self.s[p]
                 if isinstance(x, Hole):
                     hv = self._hole_vs_class(body, x)
-                    if hv is None and not self.over:
-                        raise Undecided(f"repeated {body!r} meets token {x!r} whose alphabet is only partly inside")
+                    if hv is None and not self.over and taint_from is None:
+                        # the token may or may not lie inside the class: going on is an assumption (tainted); stopping here
+                        # is what the clean alternatives below do (a stop inside the token continues like a stop before it)
+                        taint_from = len(stops)
                     if hv is False:
                         break
                     if hi is not None and hi <= 64 and not self.over:
@@ -277,7 +279,12 @@ class Matcher:
             for e in order:
                 consumed = stops.index(e)
                 if consumed >= lo:
-                    yield e, caps
+                    if taint_from is not None and consumed >= taint_from:
+                        c2 = dict(caps)
+                        c2[-1] = (pos, e)
+                        yield e, c2
+                    else:
+                        yield e, caps
                 elif any(isinstance(x, Hole) for x in self.s[pos:e]):
                     if self.over:
                         yield e, caps
@@ -313,6 +320,8 @@ def search_groups(pattern, subject, ident=None) -> Optional[Tuple[int, int, Dict
     ast_, s, m = _prep(pattern, subject, ident)
     for start in range(len(s) + 1):
         for e, c in m.ends(ast_, start):
+            if -1 in c:
+                raise Undecided("the first match in priority order exists only under an assumption about a token's text")
             return (start, e, c)
     return None
 
@@ -326,6 +335,8 @@ def match_groups(pattern, subject, ident=None, full: bool = False) -> Optional[T
     ast_, s, m = _prep(pattern, subject, ident)
     for e, c in m.ends(ast_, 0):
         if not full or e == len(s):
+            if -1 in c:
+                raise Undecided("the first match in priority order exists only under an assumption about a token's text")
             return (0, e, c)
     return None
 
